@@ -367,7 +367,8 @@ def match_on(fn_or_expr, pred=None):
 
 
 def site(file, node):
-    return (file, node.get("line", 0))
+    ln = node.get("line", 0)
+    return (file, int(ln) if isinstance(ln, float) else ln)
 
 
 def fn_params(fn):
@@ -446,10 +447,56 @@ def inline_helpers(fn, file, exclude=(), max_rounds=2):
 
         return rec(body)
 
-    def build(h, args, line):
+    def unwrap_tails(e):
+        """value of a Result/Option-returning body used as `h(..)?`: `Ok(v)` / `Some(v)` leaves become v, `Err(e)` /
+        `None` leaves become `return Err(e)` / `return None`; None when a leaf is neither"""
+        e0 = e
+        k = e.get("k")
+        if k == "Block":
+            if not e["stmts"]:
+                return None
+            t = block_tail(e)
+            if t is None:
+                return None
+            nt = unwrap_tails(t)
+            if nt is None:
+                return None
+            ne = dict(e)
+            ne["stmts"] = e["stmts"][:-1] + [dict(e["stmts"][-1], e=nt)]
+            return ne
+        if k == "If" and e.get("else") is not None:
+            a, b_ = unwrap_tails(e["then"]), unwrap_tails(e["else"])
+            if a is None or b_ is None:
+                return None
+            return dict(e, then=a, **{"else": b_})
+        if k == "Match":
+            arms = []
+            for a in e["arms"]:
+                nb = unwrap_tails(a["body"])
+                if nb is None:
+                    return None
+                arms.append(dict(a, body=nb))
+            return dict(e, arms=arms)
+        s_ = strip(e)
+        if s_.get("k") == "Call" and render(s_["func"]) in ("Ok", "Some") and len(s_["args"]) == 1:
+            return s_["args"][0]
+        if (s_.get("k") == "Call" and render(s_["func"]) == "Err") or (s_.get("k") == "Path" and s_["path"] == "None"):
+            return {"k": "Return", "line": e0.get("line", 0), "e": s_}
+        if s_.get("k") in ("Return", "Macro"):
+            return s_
+        return None
+
+    def build(h, args, line, tried=False):
         body, has_exit = prepared(h)
-        if body is None or has_exit:
+        if body is None:
             return None
+        if has_exit and not tried:
+            return None
+        if tried:
+            # `h(..)?`: early exits of the helper leave the caller as well, exactly like the `?` on the call
+            body = unwrap_tails(body)
+            if body is None:
+                return None
         ins = h["sig"]["inputs"]
         if len(ins) != len(args):
             return None
@@ -474,6 +521,25 @@ def inline_helpers(fn, file, exclude=(), max_rounds=2):
         for rb in rebound:
             _rename_binding(body, rb, rb + "__inner")
         body = substitute(body, mapping)
+        # the inlined code sits at the call site: give its nodes the call's position (in their own order), so that
+        # order-of-appearance questions are answered as if the code had been written there
+        cnt = [0]
+
+        def relocate(n):
+            if isinstance(n, list):
+                for x in n:
+                    relocate(x)
+            elif isinstance(n, dict):
+                if "line" in n:
+                    cnt[0] += 1
+                    n["line"] = line + cnt[0] * 1e-6
+                    if "mline" in n:
+                        n["mline"] = n["line"]
+                for v in n.values():
+                    if isinstance(v, (dict, list)):
+                        relocate(v)
+
+        relocate(body)
         if lets:
             body = {"k": "Block", "line": line, "stmts": lets + [{"k": "ExprStmt", "line": line, "e": body, "semi": False}]}
         return body
@@ -489,6 +555,18 @@ def inline_helpers(fn, file, exclude=(), max_rounds=2):
                 return n
             n = {k: rec(v) for k, v in n.items()}
             k = n.get("k")
+            if k == "Try" and isinstance(n.get("e"), dict):
+                c = n["e"]
+                while c.get("k") == "Paren":
+                    c = c["e"]
+                r = None
+                if c.get("k") == "Call" and c["func"]["k"] == "Path" and last(c["func"]["path"]) in helpers and "::" not in c["func"]["path"]:
+                    r = build(helpers[last(c["func"]["path"])][1], c["args"], c.get("line", 0), tried=True)
+                elif c.get("k") == "MethodCall" and c["method"] in helpers and helpers[c["method"]][0] and helpers[c["method"]][1]["sig"]["inputs"] and helpers[c["method"]][1]["sig"]["inputs"][0].get("self"):
+                    r = build(helpers[c["method"]][1], [c["recv"]] + c["args"], c.get("line", 0), tried=True)
+                if r is not None:
+                    changed = True
+                    return r
             if k == "Call" and n["func"]["k"] == "Path":
                 nm = last(n["func"]["path"])
                 if nm in helpers and ("::" not in n["func"]["path"] or n["func"]["path"].split("::")[0] in ("Self",) or n["func"]["path"].split("::")[0] == helpers[nm][0].split(" for ")[-1].split("<")[0]):
@@ -508,7 +586,65 @@ def inline_helpers(fn, file, exclude=(), max_rounds=2):
         out["body"] = rec(out["body"])
         if not changed:
             break
+    flatten_block_lets(out["body"])
     return out
+
+
+def flatten_block_lets(body):
+    """`let x = { s1; s2; v };` reads as `s1; s2; let x = v;` - and when v is a local declared inside the block, that
+    local simply *is* x.  (This is the shape an inlined helper leaves behind; after it, the caller looks the way it did
+    before the helper was extracted.)  Locals of the inner block whose names are used later in the outer block are
+    given a suffix first, so nothing is captured."""
+    import alpha
+
+    for blk in [n for n in walk(body) if n["k"] == "Block"]:
+        changed = True
+        guard = 0
+        while changed and guard < 20:
+            changed = False
+            guard += 1
+            stmts = blk["stmts"]
+            for i, s_ in enumerate(stmts):
+                if s_.get("k") != "Local" or s_.get("else") is not None or s_.get("init") is None:
+                    continue
+                p = s_["pat"]
+                if p["k"] == "PType":
+                    p = p["pat"]
+                ib = s_["init"]
+                while ib.get("k") == "Paren":
+                    ib = ib["e"]
+                if p["k"] != "PIdent" or ib.get("k") != "Block" or not ib["stmts"]:
+                    continue
+                tail = block_tail(ib)
+                if tail is None:
+                    continue
+                inner = ib["stmts"][:-1]
+                if any(x["k"] in ("Break", "Continue") for st in inner for x in walk(st)):
+                    pass
+                declared = [b["name"] for st in inner if st["k"] == "Local" for b in walk(st["pat"]) if b["k"] == "PIdent"]
+                later = stmts[i + 1:]
+                later_names = {x["path"] for st in later for x in walk(st) if x["k"] == "Path"}
+                t = strip(tail)
+                tail_var = t["path"] if t["k"] == "Path" and t["path"] in declared else None
+                ren = {d: d + "__h" for d in declared if d in later_names and d != tail_var and d != p["name"]}
+                if ren:
+                    for st in inner:
+                        alpha.rename(st, ren)
+                    alpha.rename(tail, ren)
+                if tail_var is not None:
+                    for st in inner:
+                        alpha.rename(st, {tail_var: p["name"]})
+                        if st["k"] == "Local":
+                            for b in walk(st["pat"]):
+                                if b["k"] == "PIdent" and b["name"] == p["name"]:
+                                    b["mut"] = bool(p.get("mut")) or bool(b.get("mut"))
+                    blk["stmts"] = stmts[:i] + inner + later
+                else:
+                    new_let = dict(s_)
+                    new_let["init"] = tail
+                    blk["stmts"] = stmts[:i] + inner + [new_let] + later
+                changed = True
+                break
 
 
 def _rename_binding(body, name, new):
